@@ -83,6 +83,19 @@ def stepC16 : Step
   | ["c16_parse", h] => some (showParsed (tryParse edValid (Hex.decode h)), "-")
   | ["c16_subfield", h] =>
     some ((match subFieldStrict edValid (Hex.decode h) with | some sf => "ok " ++ dumpField sf | none => "err"), "-")
+  | ["c16_subfield_rt", d, suf] =>
+    -- C02 for the sub-field codec: bytes, reported length, partial parse of bytes ++ suffix, strict parse of bytes
+    match parseField d with
+    | none => some ("bad-desc", "-")
+    | some f =>
+      if ¬ constructible f then some ("bad-desc", "-") else
+      let b := encSub f
+      let all := b ++ Hex.decode suf
+      let partialRes := match subFieldRd edValid all with
+        | (some g, rest) => s!"{all.length - rest.length}:{if g == f then "eq" else "ne"}"
+        | (none, _) => "err"
+      let strict := match subFieldStrict edValid b with | some g => (if g == f then "eq" else "ne") | none => "err"
+      some (s!"{Hex.encode b} {b.length} {partialRes} {strict}", "-")
   | ["c16_ser", d] =>
     match parseDump d with
     | none => some ("err", "err")
